@@ -82,7 +82,13 @@ class AuthServer(asyncssh.SSHServer):
         if self.app['async']:
             fut = asyncio.get_event_loop().create_future()
             self.rec['begins'].append((fut, res))
-            return fut
+
+            async def wait() -> bool:
+                r = await fut
+                self.rec['installed'] = u       # per-user authorized keys are installed when begin_auth completes
+                return r
+            return wait()
+        self.rec['installed'] = u
         return res
 
     def password_auth_supported(self) -> bool:
@@ -106,7 +112,8 @@ class AuthServer(asyncssh.SSHServer):
     def validate_public_key(self, username: str, key: Any) -> Any:
         u = int(username[4:])
         k = next((i for i, kk in enumerate(keys()) if kk.public_data == key.public_data), -1)
-        ok = (u, k) in self.app['key']
+        ctx = self.rec.get('installed', u) if self.app.get('peruser') else u
+        ok = (ctx, k) in self.app['key']
         self.rec['calls'].append(('validate_public_key', u, k))
         fut = asyncio.get_event_loop().create_future()
         self.rec['vals'].append((fut, ok, ('key', u, k)))
@@ -262,7 +269,7 @@ async def run_script(app: Dict[str, Any], events: List[str], seed: int, settle_e
 
 def gen_app(rng: random.Random) -> Dict[str, Any]:
     users = [1, 2, 3]
-    return {'async': rng.random() < 0.6,
+    return {'async': rng.random() < 0.6, 'peruser': rng.random() < 0.5,
             'noauth': sorted(u for u in users if rng.random() < 0.1),
             'pw': sorted({(rng.choice(users), rng.randrange(3)) for _ in range(rng.randint(0, 2))}),
             'key': sorted({(rng.choice(users), rng.randrange(3)) for _ in range(rng.randint(0, 2))})}
@@ -298,11 +305,13 @@ def gen_events(rng: random.Random, app: Dict[str, Any]) -> List[str]:
 
 def model_line(app: Dict[str, Any], events: List[str], variant: str = 'new') -> str:
     f = lambda ps: ','.join(f'{a}:{b}' for a, b in ps) or '-'  # noqa: E731
-    return (f'run {variant} {1 if app["async"] else 0} {f([(u, 1) for u in app["noauth"]])} {f(app["pw"])} '
+    return (f'run {variant} {1 if app["async"] else 0}{1 if app.get("peruser") else 0} {f([(u, 1) for u in app["noauth"]])} {f(app["pw"])} '
             f'{f(app["key"])} ' + ' '.join(events))
 
 
 CORPUS = [
+    ({'async': True, 'peruser': True, 'noauth': [], 'pw': [], 'key': [(1, 1), (2, 2)]},
+     ['req:1:pkprobe:1', 'begin:0', 'val:0', 'req:2:none:0', 'req:2:pksig1:1', 'val:1', 'begin:2', 'val:2']),   # second form of F1
     ({'async': True, 'noauth': [], 'pw': [(1, 7)], 'key': []},
      ['req:1:password:7', 'begin:0', 'req:2:none:0', 'val:0']),                   # F1: pipelined user switch
     ({'async': True, 'noauth': [2], 'pw': [], 'key': []},
@@ -365,8 +374,9 @@ def granted(o: Dict[str, Any], u: int) -> bool:
             if p[2] == 'pksig1':
                 signed_ok.add((int(p[1]), int(p[3]) % 3))
             i += 1
+    truly = set(tuple(x) for x in o['app']['key'])
     for kind, uu, k, ok in o['completed_vals']:
-        if kind == 'key' and uu == u and ok and (u, k) in signed_ok:
+        if kind == 'key' and uu == u and ok and (u, k) in signed_ok and (u, k) in truly:
             return True
     return False
 
